@@ -518,7 +518,12 @@ def finish(prop, tier, seed, t0, hs, res, problems, violations, known_lines, src
             os.makedirs(os.path.join(REPLAY_DIR, prop), exist_ok=True)
             rp = os.path.join(REPLAY_DIR, prop, "mirsmt.json")
             json.dump(smt, open(rp, "w"), indent=1)
-            violations.append(("mirsmt", smt.get("failures"), rp))
+            if violations:
+                # the Kani harness over the same function produced a natively replayed counterexample
+                violations.append(("mirsmt", smt.get("failures"), rp))
+            else:
+                problems.append("MIR->SMT cross-check refuted " + ", ".join(f["obligation"] for f in smt["failures"]) +
+                                f" but no Kani counterexample was replayed natively (see {rp}) - inconclusive")
         elif smt and smt.get("status") in ("error", "inconclusive"):
             log(f"[{prop}] MIR->SMT cross-check inconclusive: {smt.get('error') or smt.get('reason')}")
     write_evidence(prop, tier, seed, t0, hs, res, problems, violations, known_lines, src_hash, smt)
